@@ -24,6 +24,12 @@ package agreement
 // H2: as H1 but P_L arrives BEFORE the filter timeout, so every vote is for P_L.
 // H3: as H1 but the crash-DB commit of the period-0 soft attest is made to FAIL (verifhook
 // fault injection): the soft vote must be dropped (no vote without persisted state).
+// H4: as H3 with the other interleaving of the two goroutines involved: the pseudonode task of the
+// soft attest is held inside makeVote (gate in the harness ledger's LookupAgreement) until the
+// failing persist and its checkpoint event were processed by the main loop, and only then reaches
+// its wait on persistStateDone (in H3 the persistence gates open at quiescence, i.e. the task is
+// already waiting). Persist-failure x {checkpoint after / before the pseudonode waits} is thereby
+// enumerated.
 // Recorded, interleaved: every db.commit.post of the crash DB (with a copy of the DB files)
 // and every own vote handed to Network.Broadcast/Relay.
 //
@@ -273,6 +279,28 @@ type c02iiLedger struct {
 	persistReqs int
 	never       chan struct{}
 	ensured     []string
+
+	// lookup gate: while armed, LookupAgreement (reached by the pseudonode task through makeVote ->
+	// membership) blocks, so that the harness decides whether the pseudonode reaches its wait on
+	// persistStateDone BEFORE or AFTER the checkpoint of its attest was processed by the main loop.
+	holdLookups bool
+	lookupGate  chan struct{}
+}
+
+func (l *c02iiLedger) armLookups() {
+	l.mu.Lock()
+	l.holdLookups = true
+	l.lookupGate = make(chan struct{})
+	l.mu.Unlock()
+}
+
+func (l *c02iiLedger) releaseLookups() {
+	l.mu.Lock()
+	if l.holdLookups {
+		l.holdLookups = false
+		close(l.lookupGate)
+	}
+	l.mu.Unlock()
 }
 
 func (l *c02iiLedger) NextRound() basics.Round { return 1 }
@@ -326,6 +354,15 @@ func (l *c02iiLedger) LookupDigest(r basics.Round) (crypto.Digest, error) {
 }
 
 func (l *c02iiLedger) LookupAgreement(r basics.Round, a basics.Address) (basics.OnlineAccountData, error) {
+	l.mu.Lock()
+	var g chan struct{}
+	if l.holdLookups {
+		g = l.lookupGate
+	}
+	l.mu.Unlock()
+	if g != nil {
+		<-g
+	}
 	if r >= 1 {
 		return basics.OnlineAccountData{}, fmt.Errorf("c02iiLedger: balances of round %d not available", r)
 	}
@@ -761,7 +798,7 @@ type c02iiHist struct {
 
 // c02iiHistory: the uncrashed run. lowFirst: the competing lower-credential proposal arrives
 // before the filter timeout (H2) or after the soft vote (H1).
-func c02iiHistory(t *testing.T, env *c02iiEnv, dbPath, snapDir string, lowFirst bool, failOcc int) (h *c02iiHist, err error) {
+func c02iiHistory(t *testing.T, env *c02iiEnv, dbPath, snapDir string, lowFirst bool, failOcc int, checkpointFirst bool) (h *c02iiHist, err error) {
 	h = &c02iiHist{}
 	synctest.Test(t, func(t *testing.T) {
 		var n *c02iiNode
@@ -789,8 +826,17 @@ func c02iiHistory(t *testing.T, env *c02iiEnv, dbPath, snapDir string, lowFirst 
 			n.settle()
 			h.voted = h.pL
 		}
+		if checkpointFirst {
+			// hold the pseudonode task of the soft attest inside makeVote until the (failing) persist and
+			// its checkpoint event have been processed by the main loop; only then let it reach its wait
+			n.led.armLookups()
+		}
 		n.clock.fire(TimeoutFilter)
 		n.settle()
+		if checkpointFirst {
+			n.led.releaseLookups()
+			n.settle()
+		}
 		if !lowFirst {
 			if h.pL, h.plMsg, err = n.propose(env.low); err != nil {
 				return
@@ -963,13 +1009,18 @@ func TestVerif_C02_service(t *testing.T) {
 		Name     string
 		LowFirst bool
 		FailOcc  int // crash-DB commit occurrence made to fail (0 is the table creation)
-	}{{"H1-ownProposalVoted", false, -1}, {"H2-otherProposalVoted", true, -1}, {"H3-softVotePersistFails", false, 1}} {
+		// CheckpointFirst: the failed checkpoint is processed by the main loop BEFORE the pseudonode task
+		// reaches its wait on persistStateDone (H3 has the other order: the gates open at quiescence,
+		// when the task is already waiting)
+		CheckpointFirst bool
+	}{{"H1-ownProposalVoted", false, -1, false}, {"H2-otherProposalVoted", true, -1, false}, {"H3-softVotePersistFails", false, 1, false},
+		{"H4-softVotePersistFails-checkpointBeforePseudonodeWaits", false, 1, true}} {
 		if wantReplay != nil && wantReplay.History != hist.Name {
 			continue
 		}
 		hdir := filepath.Join(scratch, hist.Name)
 		_ = os.MkdirAll(hdir, 0o755)
-		h, err := c02iiHistory(t, env, filepath.Join(hdir, "crash.sqlite"), filepath.Join(hdir, "snap"), hist.LowFirst, hist.FailOcc)
+		h, err := c02iiHistory(t, env, filepath.Join(hdir, "crash.sqlite"), filepath.Join(hdir, "snap"), hist.LowFirst, hist.FailOcc, hist.CheckpointFirst)
 		if err != nil {
 			t.Fatalf("HARNESS-FAILURE history %s: %v", hist.Name, err)
 		}
@@ -986,30 +1037,6 @@ func TestVerif_C02_service(t *testing.T) {
 			}
 		}
 		run.Sample(map[string]any{"history": hist.Name, "events": seq})
-		// non-vacuity of the history: soft, cert, next of period 0 and soft of period 1
-		need := map[c02iiVoteID]bool{{1, 0, soft}: false, {1, 0, cert}: false, {1, 0, next}: false, {1, 1, soft}: false}
-		if hist.FailOcc >= 0 {
-			// the persist of the period-0 soft attest fails: that vote must be dropped (oracle A
-			// flags it otherwise); without it no soft quorum forms, the node next-votes bottom
-			need = map[c02iiVoteID]bool{{1, 0, next}: false}
-			voted = bottom
-		}
-		for _, e := range evs {
-			if e.Kind == "vote" {
-				if _, ok := need[e.ID]; ok {
-					need[e.ID] = true
-					if e.Value != voted {
-						t.Fatalf("HARNESS-FAILURE history %s: %s is not for the expected value %s", hist.Name, e, c02iiPV(voted))
-					}
-				}
-			}
-		}
-		for id, ok := range need {
-			if !ok && wantReplay == nil {
-				t.Fatalf("HARNESS-FAILURE history %s did not produce the vote %+v; events: %v", hist.Name, id, seq)
-			}
-		}
-
 		// ---- oracle A
 		lastCommit := -1
 		for i, e := range evs {
@@ -1027,6 +1054,10 @@ func TestVerif_C02_service(t *testing.T) {
 				continue
 			}
 			p, acts, err := c02iiDecodeSnap(evs[lastCommit].Snap)
+			if err != nil && strings.Contains(err.Error(), "no crash state") {
+				run.Report("C02:released-before-persisted", fmt.Sprintf("history %s: own vote %s (event %d) was handed to the network while the crash DB (as of commit event %d) holds no agreement state at all; events: %v", hist.Name, e, i, lastCommit, seq), c02iiReplay{hist.Name, i, ""})
+				continue
+			}
 			if err != nil {
 				run.Report("C02:persisted-state-undecodable", fmt.Sprintf("history %s: crash DB as of commit event %d does not decode: %v", hist.Name, lastCommit, err), c02iiReplay{hist.Name, i, ""})
 				continue
@@ -1036,6 +1067,35 @@ func TestVerif_C02_service(t *testing.T) {
 					hist.Name, e, i, e.Held, lastCommit, p.Round, p.Period, p.Step, acts, seq), c02iiReplay{hist.Name, i, ""})
 			}
 			run.Class(fmt.Sprintf("A|%s|p%d s%d|covered-by-%s", hist.Name, e.ID.Period, e.ID.Step, map[bool]string{true: "action-or-step"}[true]))
+		}
+
+		// non-vacuity of the history: soft, cert, next of period 0 and soft of period 1
+		need := map[c02iiVoteID]bool{{1, 0, soft}: false, {1, 0, cert}: false, {1, 0, next}: false, {1, 1, soft}: false}
+		if hist.FailOcc >= 0 {
+			// the persist of the period-0 soft attest fails: that vote must be dropped (oracle A
+			// flags it otherwise); without it no soft quorum forms, the node next-votes bottom
+			need = map[c02iiVoteID]bool{{1, 0, next}: false}
+			voted = bottom
+		}
+		// (evaluated after oracle A: a tree that releases the vote whose persist failed changes the
+		// rest of the history, which is a violation reported by oracle A, not a harness failure)
+		if run.Violations() > 0 {
+			continue
+		}
+		for _, e := range evs {
+			if e.Kind == "vote" {
+				if _, ok := need[e.ID]; ok {
+					need[e.ID] = true
+					if e.Value != voted {
+						t.Fatalf("HARNESS-FAILURE history %s: %s is not for the expected value %s", hist.Name, e, c02iiPV(voted))
+					}
+				}
+			}
+		}
+		for id, ok := range need {
+			if !ok && wantReplay == nil {
+				t.Fatalf("HARNESS-FAILURE history %s did not produce the vote %+v; events: %v", hist.Name, id, seq)
+			}
 		}
 
 		// ---- oracle B: restart at every prefix
